@@ -151,7 +151,8 @@ Print Assumptions C10_withonly.
    subscribed to o when the lock was taken, then exactly ci was closed on o and
    o.subs lost exactly ci, otherwise ErrAlreadyUnsubscribed, nothing closed and
    o.subs unchanged; UnsubAll closes exactly o.subs (in order) and empties it;
-   Sub/SubBuf append the new channel and close nothing. No interleaving of other
+   Sub/SubBuf append the new channel, which was not subscribed before, and close
+   nothing. No interleaving of other
    threads changes this (they cannot touch o.subs while the lock is held). *)
 Theorem C10_write_calls_every_schedule : forall timeout cb defbuf progs s later t n o r subs1 earlier,
   c_trace (run (init timeout cb defbuf progs) s) = later ++ EUnlock t n o r subs1 :: earlier ->
@@ -175,9 +176,19 @@ Theorem C10_withonly_every_schedule : forall timeout cb defbuf progs s later t n
 Proof. exact view_ok_run. Qed.
 Print Assumptions C10_withonly_every_schedule.
 
+(* ... and, from its return on and in every schedule, the view has the
+   PubTimeoutAfter and the "OnPubTimeout set" of its parent ([ocfg]). *)
+Theorem C10_view_config : forall timeout cb defbuf progs s t n o v vsubs subs1,
+  let c := run (init timeout cb defbuf progs) s in
+  In (EViewRet t n o v vsubs subs1) (c_trace c) -> ocfg c v = ocfg c o /\ ocfg c o <> None.
+Proof. exact view_config. Qed.
+Print Assumptions C10_view_config.
+
 (* Where a log entry comes from: every entry of the log of a run was logged by
    one step of the run, taken by thread t in a configuration with the properties
-   [logged_by]: e.g. for [ERLock k o evs subs]: t = k_tid k had returned from
+   [logged_by]. [logged_by] has content for ERLock, ELock, EUnlock, EViewLock,
+   EViewRet, EPubRet and EClose (it is True for EHandoff, ETimeout, ECallback,
+   EDone, ERecv, ESub, EPanic, about which the counting theorems speak): e.g. for [ERLock k o evs subs]: t = k_tid k had returned from
    exactly k_n k calls, its next call was the publish call with these events
    and this variant on o, and subs = o.subs in that configuration; for
    [ELock t n o cl subs]: cl was t's next call (or the one it was parked in
@@ -344,13 +355,18 @@ Print Assumptions C10_closed_only_by_unsub.
    being closed is alive and no other PubSub (WithOnly view) lists it
    ([safe_sched], a condition on the schedule), buffer sizes being >= 0.
    Moreover in such runs every channel listed by an unlocked PubSub is open.
-   The two hypotheses exclude exactly the three known findings: (a) no live
+   The two hypotheses exclude at least the five known findings: (a) no live
    asynchronous sender at a close (pubsub-async-unsub-panic); (b) no other PubSub
-   listing the closed channel, i.e. no stale view left behind, through which a
-   later publish (pubsub-stale-withonly-view-panic) or a later Unsub/UnsubAll
-   (pubsub-stale-withonly-view-unsub-panic) would act on the closed channel; see
-   C10_stale_view_histories_not_safe. Unsubscribing through a view is otherwise
-   in scope: any program may call Unsub/UnsubAll on any PubSub object. *)
+   listing the closed channel, i.e. no stale list left behind on the other side
+   of a WithOnly: a later publish or Unsub/UnsubAll through the stale view after
+   the parent removed the channel (pubsub-stale-withonly-view-panic,
+   pubsub-stale-withonly-view-unsub-panic), or on the stale parent after the
+   channel was removed through the view (pubsub-stale-parent-after-view-unsub-panic,
+   pubsub-stale-parent-unsub-after-view-unsub-panic); see
+   C10_stale_view_histories_not_safe. (b) is conservative: it also excludes
+   harmless runs in which the stale side is never used again. Unsubscribing
+   through a view is otherwise in scope: any program may call Unsub/UnsubAll on
+   any PubSub object. *)
 Theorem C10_no_panic_quiesced : forall timeout cb defbuf progs s,
   (0 <= defbuf)%Z -> (forall p cl, In p progs -> In cl p -> call_ok cl) ->
   safe_sched (init timeout cb defbuf progs) s ->
@@ -396,17 +412,35 @@ Theorem C10_stale_view_unsub_panic_reachable :
 Proof. exact stale_view_unsub_panic_reachable. Qed.
 Print Assumptions C10_stale_view_unsub_panic_reachable.
 
-(* Both stale-view histories (publish through the view, Unsub through the
-   view) are excluded EXPLICITLY by hypothesis (b) of C10_no_panic_quiesced: their
-   schedules are not [safe_sched], because when the parent's Unsub closes the
-   channel another PubSub (the view) lists it. (C10_no_panic_sync excludes them
-   by having no WithOnly.) *)
+(* Known findings 4 and 5 (mirrored): s := SubBuf(1); v := WithOnly(s); Unsub(s)
+   THROUGH v closes s while the parent still lists it; then PubSync(1) on the
+   parent sends on the closed channel (pubsub-stale-parent-after-view-unsub-panic),
+   Unsub(s) on the parent closes it again
+   (pubsub-stale-parent-unsub-after-view-unsub-panic). *)
+Theorem C10_parent_after_view_unsub_panic_reachable :
+  c_panic (run (init 0%Z false 0%Z [[CSubBuf 0 1%Z; CWithOnly 0 (Some 0); CUnsub 1 (Some 0); CPubOne Sync 0 1%Z]])
+               (repeat (0, Plain) 9)) = Some PSendOnClosed /\
+  c_panic (run (init 0%Z false 0%Z [[CSubBuf 0 1%Z; CWithOnly 0 (Some 0); CUnsub 1 (Some 0); CUnsub 0 (Some 0)]])
+               (repeat (0, Plain) 9)) = Some PCloseOfClosed.
+Proof. exact (conj view_first_pub_panic_reachable view_first_unsub_panic_reachable). Qed.
+Print Assumptions C10_parent_after_view_unsub_panic_reachable.
+
+(* All four stale-list histories are excluded EXPLICITLY by hypothesis (b) of
+   C10_no_panic_quiesced: their schedules are not [safe_sched], because at the
+   close step of the first Unsub another PubSub (the view, resp. the parent)
+   lists the channel. (C10_no_panic_sync excludes them by having no WithOnly.) *)
 Theorem C10_stale_view_histories_not_safe :
   ~ safe_sched (init 0%Z false 0%Z [[CSubBuf 0 1%Z; CWithOnly 0 (Some 0); CUnsub 0 (Some 0); CPubOne Sync 1 1%Z]])
                (repeat (0, Plain) 9) /\
   ~ safe_sched (init 0%Z false 0%Z [[CSubBuf 0 1%Z; CWithOnly 0 (Some 0); CUnsub 0 (Some 0); CUnsub 1 (Some 0)]])
+               (repeat (0, Plain) 9) /\
+  ~ safe_sched (init 0%Z false 0%Z [[CSubBuf 0 1%Z; CWithOnly 0 (Some 0); CUnsub 1 (Some 0); CPubOne Sync 0 1%Z]])
+               (repeat (0, Plain) 9) /\
+  ~ safe_sched (init 0%Z false 0%Z [[CSubBuf 0 1%Z; CWithOnly 0 (Some 0); CUnsub 1 (Some 0); CUnsub 0 (Some 0)]])
                (repeat (0, Plain) 9).
-Proof. exact (conj stale_view_not_safe stale_view_unsub_not_safe). Qed.
+Proof.
+  exact (conj stale_view_not_safe (conj stale_view_unsub_not_safe (conj view_first_pub_not_safe view_first_unsub_not_safe))).
+Qed.
 Print Assumptions C10_stale_view_histories_not_safe.
 
 (* [safe_sched] can be decided for a concrete schedule. *)
